@@ -34,11 +34,19 @@ func Differentiable(op Op, in []*T, out *T) bool {
 		if in[0].Shape[op.Dim] == 1 {
 			return true
 		}
-		for _, v := range out.V {
-			if !(v > 1e-6) {
-				return false
+		// std > 0 in every reduced slice, and well-conditioned: relative to the
+		// slice's own magnitude (the rule is scale invariant)
+		ok := true
+		Fibres(in[0], op.Dim, func(ro int, offs []int) {
+			m := 0.
+			for _, o := range offs {
+				m = math.Max(m, math.Abs(in[0].V[o]))
 			}
-		}
+			if !(out.V[ro] > 1e-6*m) || !(out.V[ro] > 0) {
+				ok = false
+			}
+		})
+		return ok
 	case "Log":
 		for _, v := range in[0].V {
 			if !(v > 0) {
